@@ -29,6 +29,8 @@ const (
 	evIter
 	evAck
 	evReadClose
+	evOpenOK
+	evOpenFail
 )
 
 type vpEvent struct {
@@ -45,13 +47,19 @@ type vpWorld struct {
 	files                                                        []MaybeFile
 	iterFails                                                    bool
 	iterFailsAnywhere, iterFailed                                bool
+	iterRunning                                                  int // MetaStore iterators entered and not yet returned
 	updateWrites                                                 []WriteOperation
 	updateDeletes                                                []DeleteOperation
 	ctxSeen                                                      []context.Context
 	openMaySucceed                                               bool
+	openAlways                                                   bool // OpenFile never fails
 }
 
 var vpW *vpWorld
+
+// vpIOSlot: when set, every store / reader call made by the code under test must happen while this
+// worker slot is held (C22's discipline obligation).
+var vpIOSlot *querySlot
 
 func vpNewWorld() *vpWorld {
 	vpW = &vpWorld{failCreate: true, failWrite: true, failClose: true, failUpdate: true, failTombstone: true}
@@ -126,9 +134,14 @@ func (s *vpStore) CreateFile(ctx context.Context) (io.WriteCloser, []byte, error
 
 func (s *vpStore) OpenFile(ctx context.Context, p []byte) (io.ReadSeekCloser, error) {
 	s.w.log(evOpen, vpFileID(p))
-	if s.w.openMaySucceed && nondetBool() {
+	if vpIOSlot != nil {
+		vpAssert(vpIOSlot.held, "C22: OpenFile called without holding a query slot")
+	}
+	if s.w.openAlways || (s.w.openMaySucceed && nondetBool()) {
+		s.w.log(evOpenOK, vpFileID(p))
 		return &vpReader{w: s.w, id: vpFileID(p)}, nil
 	}
+	s.w.log(evOpenFail, vpFileID(p))
 	return nil, vpInjected()
 }
 
@@ -197,6 +210,8 @@ type vpMeta struct{ w *vpWorld }
 func (m *vpMeta) GetMaybeFilesForQuery(ctx context.Context, q *QueryPrefilter) iter.Seq2[MaybeFile, error] {
 	return func(yield func(MaybeFile, error) bool) {
 		m.w.log(evIter, -1)
+		m.w.iterRunning++
+		defer func() { m.w.iterRunning-- }()
 		for i, f := range m.w.files {
 			if m.w.iterFails && (m.w.iterFailsAnywhere || i == len(m.w.files)-1) && nondetBool() {
 				m.w.iterFailed = true
